@@ -25,7 +25,7 @@ def P(pid, level, **kw):
     PROPS[pid] = d
 
 
-P("C01", "proof", kani={"timeout": "600s", "compile_clause": True},
+P("C01", "proof", kani={"timeout": "600s", "compile_clause": True}, rac=["emit"],
   unbounded="all operands, all 22 operators: spelling -> Combinator -> constructor -> emitted tokens == documented call",
   bounded="operator adjacency / chain length (Kani programs)",
   not_decided="left-to-right composition for chains outside the enumerated family; that parse_until applies the table (C14)")
@@ -62,7 +62,7 @@ P("C03", "model_checking", kani={"timeout": "1200s"},
   bounded="sync: profiles n<=3 d<=3 with 7 operator kinds rotating over positions (incl. deferred error operators), exact staged trace; async: same gate programs as C09, monotone step numbers in the trace",
   not_decided="OS-thread interleavings and tokio task schedules (Kani has no thread support)")
 
-P("C10", "model_checking", kani={"timeout": "600s", "compile_clause": True},
+P("C10", "model_checking", kani={"timeout": "600s", "compile_clause": True}, rac=["linear"],
   bounded="every operator with logging callbacks: exact callback trace == documented chain's trace; move-only Tok programs: live()==0 after the result is dropped; block operands inside wrappers evaluated once",
   not_decided="programs outside the enumerated family")
 P("C11", "proof", kani={"timeout": "600s", "compile_clause": True},
@@ -72,9 +72,20 @@ P("C11", "proof", kani={"timeout": "600s", "compile_clause": True},
 P("C12", "model_checking", kani={"timeout": "600s", "compile_clause": True},
   bounded="n<=3, d<=3, subsets of named branches (quick: 6 masks per profile), every later step has a capture reading a name; 4 executable macro kinds",
   not_decided="spawn kinds")
-P("C13", "model_checking", kani={"timeout": "600s"},
+P("C13", "model_checking", kani={"timeout": "600s"}, rac=["reject"],
   bounded="every legal (kind x handler) for the 4 executable kinds, n<=3, handler at end / between branches, failure flags symbolic; handler call count, argument order, wrapping, awaited value",
   not_decided="spawn kinds")
-P("C16", "model_checking", kani={"timeout": "600s"},
+P("C16", "model_checking", kani={"timeout": "600s"}, rac=["options"],
   bounded="logging joiner (macro form) on 8 depth profiles eager/lazy; transposing joiner with transpose_results(false) on 6 profiles; futures_crate_path via a re-export; all four options together",
   not_decided="spawn kinds")
+
+P("C15", "model_checking", rac=["reject", "enum"],
+  bounded="rejection matrix (464 cases, exhaustive over its finite domain); all token sequences of length <= 4 (thorough 5) over a 27-word DSL vocabulary and of length <= 7 (thorough 8) over an 8-word wrapper/step vocabulary: outcome class never `internal panic`, accepted inputs expand to a Rust expression",
+  not_decided="totality of syn itself; longer inputs")
+P("C20", "other", rac=["purity"],
+  explanation="repeated, interleaved and concurrent (4 threads) library-level expansions of the same input are compared token for token (bounded stand-in); engine V's functional postconditions (out == spec(args)) prove determinism for the contracted functions only",
+  bounded="4 inputs x applicable kinds x 12 (thorough 50) repetitions + 16 concurrent expansions each",
+  not_decided="the uncontracted generator core for inputs outside the samples; cross-process histories")
+P("C14", "model_checking", rac=["structure"],
+  bounded="parsed chain structure == structure the input was rendered from: 22 operators x deferred x 12 (thorough 20) operand shapes, all adjacent operator pairs x 4 deferred patterns, 10 wrappers x 22 inner operators x 3 closing shapes",
+  not_decided="operands outside the pool; split-point logic inside syn")
